@@ -27,6 +27,17 @@ func init() {
 const mc = "mod/modcache."
 
 func checkC16(c *Ctx) {
+	// errcheck-style baseline: a newly discarded error in the package is a dropped protocol/validation step
+	c.checkErrorDiscipline("errors.no-new-dropped-error", "mod/modcache", map[string]string{
+		"(*Cache).Fetch|os.ReadDir": "listing stale temp directories is best effort (a missing parent simply lists nothing)",
+		"(*Cache).Fetch|mod/modcache.RemoveAll": "removing stale <dir>.tmp-* siblings is best effort (comment in the source)",
+		"(*Cache).Fetch|os.Remove": "failure path after Unzip failed: the marker is dropped only if the tree was removed; a failing Remove leaves the marker, which is the safe state",
+		"(*Cache).downloadZip1|os.Remove": "removing stale temp files of previous runs is best effort",
+		"RemoveAll|path/filepath.WalkDir": "chmod walk before removal is best effort; robustio.RemoveAll's error is returned",
+		"RemoveAll|os.Chmod": "as above",
+		"makeDirsReadOnly|path/filepath.WalkDir": "documented best-effort",
+		"makeDirsReadOnly|os.Chmod": "documented best-effort",
+	})
 	c16Fetch(c)
 	c16DownloadDir(c)
 	c16TempRename(c, c.fn("mod/modcache", "(*Cache).downloadZip1"), "zipfile", []string{"io.Copy"})
